@@ -450,6 +450,7 @@ def plan(tier, seed):
     shards = [{'shard': i, 'nshards': n, 'streams': 24 if tier == 'quick' else 400, 'short': 3 if tier == 'quick' else 10} for i in range(n)]
     m = 4 if tier == 'quick' else 16
     shards += [{'shard': 1000 + i, 'level3': True, 'cases': 12 if tier == 'quick' else 120} for i in range(m)]
+    shards += [{'shard': 2000 + i, 'maxsize': True, 'part': i, 'of': 4} for i in range(4)]
     return shards
 
 
@@ -538,7 +539,57 @@ def run_level3(desc):
     return res
 
 
+def sized_update(total: int, i: int) -> bytes:
+    """a well-formed UPDATE of exactly `total` octets on the wire (an unknown optional transitive attribute pads it)"""
+    base = rw.enc_attr(0x40, 1, b'\0') + rw.enc_attr(0x40, 2, rw.v_aspath([(2, [65001])], True)) + rw.enc_attr(0x40, 3, bytes([192, 0, 2, 9]))
+    nlri = bytes([24, 172, (i >> 8) & 255, i & 255])
+    pad = total - 19 - 4 - len(base) - len(nlri) - 4  # 4: flags, code, two length octets
+    msg = rw.enc_update(b'', base + rw.enc_attr(0xC0, 240, bytes(pad), True), nlri)
+    assert len(msg) == total, (len(msg), total)
+    return msg
+
+
+def run_maxsize(desc):
+    """L3: the maximum message size in force is 65535 only when BOTH OPENs carried the extended message capability; a
+    message one octet above the maximum in force is answered 1/2 whatever the peer announced on its own"""
+    from vlib import scen
+
+    res = Result()
+    combos = [(lo, pe, ln) for lo in (False, True) for pe in (False, True) for ln in (4096, 4097, 9000)]
+    for ci, (local_ext, peer_ext, length) in enumerate(combos):
+        if ci % desc['of'] != desc['part']:
+            continue
+        maxsize = 65535 if (local_ext and peer_ext) else 4096
+        cfg = {'hold': 90, 'families': [(1, 1)], 'adjin': True, 'api': True, 'api_receive': True, 'routes': 1, 'extmsg': local_ext}
+        steps = [['accept', 20.0], ['establish', {'extmsg': peer_ext}], ['wait_quiet', 0.5, 10.0], ['mark', 'inject'], ['send', sized_update(length, 7).hex()], ['sleep', 0.5], ['send', scen.simple_update(9).hex()], ['sleep', 0.5], ['ka'], ['sleep', 0.5], ['mark', 'probe-end']]
+        status, rec = scen.run_case({'config': cfg, 'steps': steps, 'vtimeout': 120.0, 'wall': 60.0})
+        cls = f'L3:maxsize:local-{"ext" if local_ext else "std"}:peer-{"ext" if peer_ext else "std"}:{length}'
+        if status != 'ok' or any(x[1] in ('no-connection', 'not-established') for x in rec['notes']):
+            res.inconclusive.append(f'{cls}: lab {status} {str(rec)[:160] if status != "ok" else rec["notes"]}')
+            continue
+        sess = rec['sessions'][0]
+        t_inj = [e['t'] for e in rec['events'] if e['kind'] == 'mark' and e.get('name') == 'inject'][0]
+        notifs = [bytes.fromhex(m[2].split('..')[0])[:2] for m in sess['rx'] if m[1] == rw.NOTIFICATION and m[0] >= t_inj]
+        later = '172.0.9.0/24' in rec['helper_rx']
+        wit = {'local_extended_message': local_ext, 'peer_extended_message': peer_ext, 'length': length, 'maximum_in_force': maxsize, 'notifications': [n.hex() for n in notifs], 'eof_at': sess['eof_at'], 'later_update_delivered': later}
+        if length > maxsize:
+            if not notifs or tuple(notifs[0]) != (1, 2):
+                res.violation(f'C06/L3-oversized-accepted:{"peer-only-extended" if peer_ext and not local_ext else "local-only-extended" if local_ext else "no-extended"}', f'a message of {length} octets with a maximum of {maxsize} in force: notifications {[n.hex() for n in notifs]}, what followed it was {"interpreted" if later else "not delivered"}', wit, cls)
+            elif later:
+                res.violation('C06/L3-canary-delivered:len-max+1', 'bytes after an oversized message were interpreted', wit, cls)
+            else:
+                res.ok(cls, ('maxsize', local_ext, peer_ext, length))
+        else:
+            if notifs or sess['eof_at'] is not None or not later:
+                res.violation(f'C06/L3-valid-refused:size-{length}-max-{maxsize}', f'a message of {length} octets within the maximum {maxsize}: notifications {[n.hex() for n in notifs]} eof={sess["eof_at"]} later={later}', wit, cls)
+            else:
+                res.ok(cls, ('maxsize', local_ext, peer_ext, length))
+    return res
+
+
 def run_shard(desc):
+    if desc.get('maxsize'):
+        return run_maxsize(desc)
     if desc.get('level3'):
         return run_level3(desc)
     res = Result()
@@ -580,6 +631,24 @@ def run_shard(desc):
             compare(res, level, stream, kinds, fault, sk, cuts, maxsize, obs, sizes)
             if si < 2:
                 res.sample({'level': level, 'kinds': kinds, 'fault': fault, 'schedule': sk, 'cuts': list(cuts)[:10], 'max': maxsize, 'observed': [o[:2] for o in obs][:8]}, limit=3)
+    # (3) two sessions alive in the same process: their streams are delivered in interleaved pieces (a header of one cut
+    # in two with a whole header of the other read in the gap); each must be framed as if it were alone
+    pairs = 0
+    for si in range(max(4, desc['streams'] // 3)):
+        maxsize = r.choice([4096, 65535])
+        sa, ka, fa = gen_stream(r, maxsize, short=r.random() < 0.5)
+        sb, kb, fb = gen_stream(r, maxsize, short=r.random() < 0.5)
+        nb = neighbor_for(maxsize)
+        level = r.choice(['L1', 'L1', 'L2'])
+        for (ska, ca), (skb, cb) in zip(schedules_random(r, sa, 5), reversed(list(schedules_random(r, sb, 5)))):
+            async def both():
+                return await asyncio.gather(drive_async(sa, ca, maxsize, level, nb), drive_async(sb, cb, maxsize, level, nb))
+
+            (oa, za), (ob, zb) = loop.run_until_complete(both())
+            compare(res, level + 'x2', sa, ka, fa, ska, ca, maxsize, oa, za)
+            compare(res, level + 'x2', sb, kb, fb, skb, cb, maxsize, ob, zb)
+            pairs += 1
+    res.extra['concurrent_session_pairs'] = pairs
     res.extra['recv_size_sequences'] = len(res.extra.get('recv_size_sequences', ()))
     return res
 
